@@ -275,6 +275,12 @@ StringDictionaryHHTFC::StringDictionaryHHTFC(IteratorDictString *it,
                         codeSubstr = (codeSubstr << (TABLEBITSO - ptrSubstr));
                         ptrSubstr = TABLEBITSO;
                       } else {
+                        // The next header begins in the next byte: the
+                        // padding bits are also part of the chunk
+                        codeSubstr = (codeSubstr << (8 - offset));
+                        ptrSubstr += (8 - offset);
+                        offset = 0;
+
                         while (true) {
                           uint symbol = dict->textStrings[ptr + read];
                           read++;
